@@ -523,11 +523,24 @@ func (obj *Flavor) LoadForm() slip.Object {
 		} else {
 			ivs[i] = ksym
 		}
-		if _, has := obj.methods[":"+k]; has {
-			gets = append(gets, ksym)
+	}
+	// The gettable and settable options also cover the variables inherited
+	// from the components of the flavor. The getters and setters that were
+	// defined by this flavor and not by a component tell which variables an
+	// option was given for.
+	all := make([]string, 0, len(obj.defaultVars))
+	for k := range obj.defaultVars {
+		if k != "self" {
+			all = append(all, k)
 		}
-		if _, has := obj.methods[":set-"+k]; has {
-			sets = append(sets, ksym)
+	}
+	sort.Strings(all)
+	for _, k := range all {
+		if obj.definesAccessor(":" + k) {
+			gets = append(gets, slip.Symbol(k))
+		}
+		if obj.definesAccessor(":set-" + k) {
+			sets = append(sets, slip.Symbol(k))
 		}
 	}
 	var inh slip.List
@@ -564,14 +577,14 @@ func (obj *Flavor) LoadForm() slip.Object {
 		}
 	}
 	if 0 < len(gets) {
-		if len(gets) == len(keys) {
+		if len(gets) == len(all) {
 			df = append(df, slip.Symbol(":gettable-instance-variables"))
 		} else {
 			df = append(df, append(slip.List{slip.Symbol(":gettable-instance-variables")}, gets...))
 		}
 	}
 	if 0 < len(sets) {
-		if len(sets) == len(keys) {
+		if len(sets) == len(all) {
 			df = append(df, slip.Symbol(":settable-instance-variables"))
 		} else {
 			df = append(df, append(slip.List{slip.Symbol(":settable-instance-variables")}, sets...))
@@ -615,6 +628,19 @@ func (obj *Flavor) LoadForm() slip.Object {
 		df = append(df, slip.List{slip.Symbol(":documentation"), slip.String(obj.docs)})
 	}
 	return df
+}
+
+// definesAccessor returns true if the flavor itself and not one of the
+// flavors it inherits from defined the method as the getter or setter of a
+// variable.
+func (obj *Flavor) definesAccessor(name string) bool {
+	if m := obj.methods[name]; m != nil && 0 < len(m.Combinations) && m.Combinations[0].From == slip.Class(obj) {
+		switch m.Combinations[0].Primary.(type) {
+		case getter, setter:
+			return true
+		}
+	}
+	return false
 }
 
 func (obj *Flavor) inheritedVar(k string, v slip.Object) bool {
